@@ -6,6 +6,7 @@ toolchain go1.23.2
 
 require (
 	github.com/anishathalye/porcupine v1.3.0
+	github.com/attestantio/go-block-relay v0.4.1
 	github.com/attestantio/go-builder-client v0.5.1
 	github.com/attestantio/go-eth2-client v0.21.11
 	github.com/attestantio/vouch v0.0.0
@@ -21,7 +22,6 @@ require (
 )
 
 require (
-	github.com/attestantio/go-block-relay v0.4.1 // indirect
 	github.com/aws/aws-sdk-go v1.55.5 // indirect
 	github.com/beorn7/perks v1.0.1 // indirect
 	github.com/cespare/xxhash/v2 v2.3.0 // indirect
